@@ -75,6 +75,7 @@ def sim_trace(kind, script):
         workers = []
         flaky = frozenset()
         linger = False
+        linger_checks = 0
         flags = set()
         def log(self, *a): pass
         def note_handed(self, *a): pass
